@@ -375,6 +375,40 @@ def _stepping(chk):
                "on_reject: step does not grow and stays within [step_min, step_max]"]:
         chk.obl(nm, "K2 path VC", [rej_label, clamp_label], "B1 z3 (B2 cvc5 on unknown)", lambda nm=nm: e2().verdict(nm))
 
+    def body_reject_policy(ctx):
+        # a user shrink policy is an arbitrary function (it may also raise): whatever it proposes, the step handed back to
+        # the driver must be inside the configured bounds; a raising policy falls back to halving
+        raises = ctx.branch(z3.Bool("policy_raises"))
+        prop = ctx.real("policy_result")
+
+        def policy(step):
+            if raises:
+                raise RuntimeError("user policy failed")
+            return _np.array([prop], dtype=object)
+        self, smin, smax = mk_self(ctx, policy)
+        s = ctx.real("step")
+        ctx.assume(z3.And(absz(zv(s)) >= zv(smin), absz(zv(s)) <= zv(smax)), silent=True)
+        out = Base.on_reject(self, last_solution=None, step=_np.array([s], dtype=object), proposal=None)
+        o = zv(out[0])
+        if raises:
+            half = absz(zv(s)) / 2
+            ctx.check("on_reject (policy raises): falls back to clip(|step|/2), same sign",
+                      z3.And(absz(o) == z3.If(half < zv(smin), zv(smin), half), o * zv(s) > 0))
+        else:
+            ctx.check("on_reject (user policy): the proposed step is clamped into [step_min, step_max], sign of the proposal",
+                      z3.Implies(zv(prop) != 0, z3.And(absz(o) >= zv(smin), absz(o) <= zv(smax), o * zv(prop) > 0)))
+    ex2p = Explorer(rej_label)
+    st2p = {}
+
+    def e2p():
+        if not st2p:
+            ex2p.run(body_reject_policy)
+            st2p["d"] = 1
+        return ex2p
+    for nm in ["on_reject (policy raises): falls back to clip(|step|/2), same sign",
+               "on_reject (user policy): the proposed step is clamped into [step_min, step_max], sign of the proposal"]:
+        chk.obl(nm, "K2 path VC", [rej_label, clamp_label], "B1 z3 (B2 cvc5 on unknown)", lambda nm=nm: e2p().verdict(nm))
+
     acc_label = SB + ":_ContinuationStepBase.on_accept"
 
     def body_accept(ctx):
